@@ -127,6 +127,7 @@ func execFeedRun(base *world.World, script []runCycle, tag string, seed int64) (
 		j, _ := json.Marshal(cp)
 		return j
 	}
+	rendered := map[int]world.Concrete{}
 	fetch := func(fctx context.Context) ([]byte, error) {
 		stubs.mu.Lock()
 		cycle++
@@ -156,7 +157,12 @@ func execFeedRun(base *world.World, script []runCycle, tag string, seed int64) (
 				return nil, fmt.Errorf("third party could not move the witness: %v", err)
 			}
 		}
-		sub := w.Concretise("l1", world.Req{Auth: "good", B: 0, N: c.N, Extra: cycle % 3, Ext: (cycle / 2) % 2, Pf: world.Pf{K: "empty"}}, nil)
+		// (an idle log serves byte-identical checkpoints cycle after cycle: one rendering per size; the shape varies with the size)
+		sub, ok := rendered[c.N]
+		if !ok {
+			sub = w.Concretise("l1", world.Req{Auth: "good", B: 0, N: c.N, Extra: c.N % 3, Ext: (c.N / 2) % 2, Pf: world.Pf{K: "empty"}}, nil)
+			rendered[c.N] = sub
+		}
 		stubs.mu.Lock()
 		stubs.sc = feedScen{Sub: feedSub{Auth: "good", B: 0, N: c.N}}
 		stubs.cp = sub.CP
